@@ -767,18 +767,9 @@ func c04r5(p *Program, r *Report) {
 		})
 		lo, n, be := isBigEndian(best)
 		r.Check(be && n == w.width && lo == 0, fi.Decl, w.name+" is big-endian, "+itoa(w.width)+" bytes", fmt.Sprintf("%d bytes from offset %d", n, lo), w.name+" does not combine "+itoa(w.width)+" bytes big-endian from offset 0")
-		// advances the buffer by the same width
-		adv := false
-		ast.Inspect(fi.Decl.Body, func(x ast.Node) bool {
-			if as, ok := x.(*ast.AssignStmt); ok && len(as.Lhs) == 1 && len(as.Rhs) == 1 && exprStr(as.Lhs[0]) == "f.buf" {
-				if sl, ok := ast.Unparen(as.Rhs[0]).(*ast.SliceExpr); ok && sl.Low != nil {
-					if k, ok := constInt(info, sl.Low); ok && int(k) == w.width {
-						adv = true
-					}
-				}
-			}
-			return true
-		})
+		// advances the buffer by the same width (directly or through a helper that advances by its argument)
+		sum := bufAdvance(p, fi, 0)
+		adv := sum.exact && len(sum.consts) == 1 && int(sum.consts[0]) == w.width && len(sum.params) == 0
 		if strings.HasPrefix(w.name, "(*framer)") {
 			r.Check(adv, fi.Decl, w.name+" consumes "+itoa(w.width)+" bytes", "f.buf = f.buf["+itoa(w.width)+":]", w.name+" does not advance the buffer by "+itoa(w.width)+" bytes")
 		}
@@ -809,6 +800,99 @@ func c04r5(p *Program, r *Report) {
 		})
 		r.Check(first == w.prefix, fi.Decl, w.name+" "+w.what, strings.TrimPrefix(first, "(*framer)."), w.name+" does not start with "+strings.TrimPrefix(w.prefix, "(*framer).")+" as the specification's notation requires")
 	}
+}
+
+// advSummary: by how much a framer method advances the read buffer (f.buf = f.buf[k:]): constant amounts and
+// amounts given by a parameter; exact=false when some store to the buffer is not of that form.
+type advSummary struct {
+	consts []int64
+	params []int
+	exact  bool
+}
+
+func bufAdvance(p *Program, fi *FuncInfo, depth int) advSummary {
+	sum := advSummary{exact: true}
+	if fi.Decl.Body == nil || fi.Decl.Recv == nil || len(fi.Decl.Recv.List) != 1 || len(fi.Decl.Recv.List[0].Names) != 1 || depth > 2 {
+		sum.exact = false
+		return sum
+	}
+	info := fi.Pkg.TypesInfo
+	recv := fi.Decl.Recv.List[0].Names[0].Name
+	buf := recv + ".buf"
+	paramIdx := func(e ast.Expr) int {
+		id, ok := ast.Unparen(stripAllConv(info, e)).(*ast.Ident)
+		if !ok {
+			return -1
+		}
+		k := 0
+		for _, pf := range fi.Decl.Type.Params.List {
+			for _, pn := range pf.Names {
+				if info.Defs[pn] == info.Uses[id] {
+					return k
+				}
+				k++
+			}
+		}
+		return -1
+	}
+	inspectNoLit(fi.Decl.Body, func(x ast.Node) bool {
+		switch n := x.(type) {
+		case *ast.AssignStmt:
+			for i, l := range n.Lhs {
+				if exprStr(l) != buf {
+					continue
+				}
+				if len(n.Lhs) != len(n.Rhs) {
+					sum.exact = false
+					continue
+				}
+				sl, ok := ast.Unparen(n.Rhs[i]).(*ast.SliceExpr)
+				if !ok || exprStr(sl.X) != buf || sl.Low == nil || sl.High != nil {
+					sum.exact = false
+					continue
+				}
+				if k, ok := constInt(info, sl.Low); ok {
+					sum.consts = append(sum.consts, k)
+				} else if pi := paramIdx(sl.Low); pi >= 0 {
+					sum.params = append(sum.params, pi)
+				} else {
+					sum.exact = false
+				}
+			}
+		case *ast.CallExpr:
+			fn := calleeOf(info, n)
+			if fn == nil {
+				return true
+			}
+			callee := p.FuncOf(fn)
+			if callee == nil || callee == fi || callee.Pkg != p.Root || callee.Decl.Recv == nil {
+				return true
+			}
+			if rc := recvExpr(n); rc == nil || exprStr(rc) != recv {
+				return true
+			}
+			cs := bufAdvance(p, callee, depth+1)
+			if !cs.exact {
+				sum.exact = false
+			}
+			sum.consts = append(sum.consts, cs.consts...)
+			for _, pi := range cs.params {
+				if pi < len(n.Args) {
+					if k, ok := constInt(info, n.Args[pi]); ok {
+						sum.consts = append(sum.consts, k)
+						continue
+					}
+					if mine := paramIdx(n.Args[pi]); mine >= 0 {
+						sum.params = append(sum.params, mine)
+						continue
+					}
+				}
+				sum.exact = false
+			}
+		}
+		return true
+	})
+	return sum
 }
 
 func c04r6(p *Program, r *Report) {
